@@ -45,6 +45,8 @@ func (c *check) Init(tier string, seed int64) engine.Space {
 		{Name: "full", Alphabet: sigma0, MaxLen: full},
 		{Name: "escapes", Alphabet: split("\\0af \n\"é-"), MaxLen: foc},
 		{Name: "controls", Alphabet: append(split("a-(\" #@1"), "\\7f ", "\\1 ", "\\b ", "\x7f", "\x01", "url(", ")"), MaxLen: foc - 2},
+		// escapes of the code points that CSS treats as newlines (LF, CR, FF): each needs its own escape when written back
+		{Name: "newline-escapes", Alphabet: append(split("\"'a "), "\\c ", "\\a ", "\\d ", "\\C", "url(", ")"), MaxLen: foc - 2},
 		{Name: "numbers", Alphabet: split("0.eE+-%a1"), MaxLen: foc},
 		{Name: "urls", Alphabet: append(split("/*() \"\\'"), "url"), MaxLen: foc},
 		{Name: "blocks", Alphabet: split("()[]{}a;"), MaxLen: foc},
